@@ -18,6 +18,7 @@ import ChibiVerif.Lemmas.LinkageParse
 import ChibiVerif.Lemmas.LinkageScan
 import ChibiVerif.Lemmas.LinkageTent
 import ChibiVerif.Lemmas.LinkageEmit
+import ChibiVerif.Lemmas.LinkageView
 
 namespace ChibiVerif.Props.C15
 open ChibiVerif.Linkage
@@ -52,6 +53,93 @@ theorem C15_live_unit (ds : List Decl) (st : PState) (h : declAll {} ds = .ok st
       unfold liveFn; rw [findFunc_scanGlobals hnt]
     rw [this]; exact hl f
 
+/-- **C15_recorded.**  What `parse` records, in terms of the declaration sequence alone (any accepted `ds`):
+    * `find_func(f)` succeeds iff `ds` declares `f` at file scope;
+    * `fn->refs` is the list of function names mentioned in the body (bodies) of `f`, in source order,
+      including those in initializers of its static locals (`allBodyRefs`);
+    * `f` is a root iff its FIRST declaration does not make it `static inline` (chibicc: `static`, or `inline`
+      without `extern`, together with `inline`), or a file-scope initializer names it after its declaration
+      (`fileRooted`).  A later redeclaration never clears the mark (the repaired defect);
+    * `is_static` / `is_inline` are those of the first declaration (`s || (i && !e)`, `i`). -/
+theorem C15_recorded (ds : List Decl) (st : PState) (h : declAll {} ds = .ok st) (f : Name) :
+    isFn st.globals f = (firstFlags ds f).isSome ∧
+    refsOf st.globals f = allBodyRefs ds f ∧
+    (f ∈ rootNames st.globals ↔
+      ∃ stc inl, firstFlags ds f = some (stc, inl) ∧ (!(stc && inl) || fileRooted ds false f) = true) ∧
+    (∀ o, findFunc st.globals f = some o → firstFlags ds f = some (o.isStatic, o.isInline)) := by
+  have hT := T_parse h f
+  have hn := (wf_declAll h).nodup
+  have hflags : ∀ o, findFunc st.globals f = some o → T st.globals f = some (fview o) := by
+    intro o ho; simp [T, ho]
+  rw [isFn_eq_T, refsOf_eq_T, mem_rootNames_iff_T hn]
+  rw [hT] at hflags ⊢
+  obtain ⟨hnone, hsome⟩ := evolve_none ds f
+  cases hff : firstFlags ds f with
+  | none =>
+    rw [hnone hff] at hflags ⊢
+    refine ⟨rfl, ?_, ?_, ?_⟩
+    · rw [allBodyRefs_undeclared ds f hff]; rfl
+    · constructor
+      · rintro ⟨v, hv, _⟩; cases hv
+      · rintro ⟨_, _, hx, _⟩; cases hx
+    · intro o ho; cases hflags o ho
+  | some p =>
+    obtain ⟨stc, inl⟩ := p
+    obtain ⟨v', hv', hs, hi, hr, hroot⟩ := hsome stc inl hff
+    rw [hv'] at hflags ⊢
+    refine ⟨rfl, ?_, ?_, ?_⟩
+    · simp [hr]
+    · constructor
+      · rintro ⟨v, hv, hvr⟩
+        cases hv
+        exact ⟨stc, inl, rfl, by rw [← hroot]; exact hvr⟩
+      · rintro ⟨a, b, hab, hcond⟩
+        cases hab
+        exact ⟨v', rfl, by rw [hroot]; exact hcond⟩
+    · intro o ho
+      have := hflags o ho
+      simp only [Option.some.injEq] at this
+      rw [← hs, ← hi, this]
+      rfl
+
+/-- reachability in terms of the declarations -/
+inductive ReachD (ds : List Decl) : Name → Name → Prop where
+  | refl {a} : (firstFlags ds a).isSome = true → ReachD ds a a
+  | step {a b c} : ReachD ds a b → c ∈ allBodyRefs ds b → (firstFlags ds c).isSome = true → ReachD ds a c
+
+/-- **C15_live (declaration level).**  For every accepted declaration sequence, in the list `parse` returns
+    `is_live f` holds iff `f` is reachable, through the function names mentioned in bodies, from a function
+    that is not `static inline` by its first declaration or that a file-scope initializer names. -/
+theorem C15_live_decl (ds : List Decl) (st : PState) (h : declAll {} ds = .ok st) :
+    ∃ gs, parseUnit ds = .ok gs ∧
+      ∀ f, liveFn gs f = true ↔
+        ∃ r stc inl, firstFlags ds r = some (stc, inl) ∧ (!(stc && inl) || fileRooted ds false r) = true ∧
+          ReachD ds r f := by
+  obtain ⟨gs, hp, hl⟩ := C15_live_unit ds st h
+  have conv : ∀ a b, Reach st.globals a b ↔ ReachD ds a b := by
+    intro a b
+    constructor
+    · intro hr
+      induction hr with
+      | refl hf => exact ReachD.refl (by rw [← (C15_recorded ds st h _).1]; exact hf)
+      | step _ hm hf ih =>
+        exact ReachD.step ih (by rw [← (C15_recorded ds st h _).2.1]; exact hm)
+          (by rw [← (C15_recorded ds st h _).1]; exact hf)
+    · intro hr
+      induction hr with
+      | refl hf => exact Reach.refl (by rw [(C15_recorded ds st h _).1]; exact hf)
+      | step _ hm hf ih =>
+        exact Reach.step ih (by rw [(C15_recorded ds st h _).2.1]; exact hm)
+          (by rw [(C15_recorded ds st h _).1]; exact hf)
+  refine ⟨gs, hp, fun f => ?_⟩
+  rw [hl]
+  constructor
+  · rintro ⟨r, hr, hreach⟩
+    obtain ⟨stc, inl, hff, hc⟩ := ((C15_recorded ds st h r).2.2.1).mp hr
+    exact ⟨r, stc, inl, hff, hc, (conv r f).mp hreach⟩
+  · rintro ⟨r, stc, inl, hff, hc, hreach⟩
+    exact ⟨r, ((C15_recorded ds st h r).2.2.1).mpr ⟨stc, inl, hff, hc⟩, (conv r f).mpr hreach⟩
+
 /-- non-vacuity: a cyclic static-inline call graph.  `static inline a(){b}`, `static inline b(){a}` (a cycle),
     `static inline dead(){dead, a}` (self reference, never referenced from outside), `int (*p)(void) = a;`
     at file scope.  Names: a=0 b=1 dead=2 p=3. -/
@@ -65,26 +153,19 @@ def cyclicUnit : List Decl :=
 example : holdsOn (parseUnit cyclicUnit) (fun gs => liveFn gs 0 && liveFn gs 1 && !liveFn gs 2) = true := by
   decide
 
+/-- the hypothesis of C15_live_unit / C15_recorded / C15_live_decl is met by `cyclicUnit`, and the recorded
+    graph is the cyclic one -/
+example : holdsOn (declAll {} cyclicUnit) (fun st =>
+    refsOf st.globals 0 == [1] && refsOf st.globals 1 == [0] && refsOf st.globals 2 == [2, 0] &&
+    rootNames st.globals == [0]) = true := by
+  decide
+
 example : holdsOn (parseUnit cyclicUnit) (fun gs =>
     (objectSymbols true gs).map (fun e => (e.sym, e.binding, e.kind)) ==
       [(.named 3, .global, .data), (.named 1, .local, .text), (.named 0, .local, .text)]) = true := by
   decide
 
 /-! ### closure of what is emitted -/
-
-/-- `parseUnit` succeeded: the three phases -/
-theorem parseUnit_ok {ds : List Decl} {gs : List Obj} (h : parseUnit ds = .ok gs) :
-    ∃ st gs', declAll {} ds = .ok st ∧ markRoots st.globals = some gs' ∧ gs = scanGlobals gs' := by
-  unfold parseUnit at h
-  simp only [bind, Except.bind] at h
-  split at h
-  · cases h
-  · rename_i st hst
-    split at h
-    · cases h
-    · rename_i gs' hm
-      simp only [pure, Except.pure, Except.ok.injEq] at h
-      exact ⟨st, gs', hst, hm, h.symm⟩
 
 /-- **C15_closed.**  In the list `parse` returns, for every declaration sequence:
     1. every function with `is_root` (not `static inline`, or named in a file-scope initializer) is live;
